@@ -22,8 +22,8 @@ func init() {
 		Run:     runMapKeyQuote,
 	})
 	register(&Rule{
-		Name: "KINDTABLE",
-		Doc: "proto kind tables agree with the protobuf specification, all evaluated as constants from the type-checked source: WireType constants, ProtoKind and proto.Type numbering (= FieldDescriptorProto.Type), Kind2Wire entries, builtinTypes key = typ, and the predicates NeedVarint/IsPacked/IsInt/IsUint/Valid evaluated for every Type value",
+		Name:    "KINDTABLE",
+		Doc:     "proto kind tables agree with the protobuf specification, all evaluated as constants from the type-checked source: WireType constants, ProtoKind and proto.Type numbering (= FieldDescriptorProto.Type), Kind2Wire entries, builtinTypes key = typ, and the predicates NeedVarint/IsPacked/IsInt/IsUint/Valid evaluated for every Type value",
 		Configs: "NP",
 		Floor:   map[string]int{"N": 100, "P": 100},
 		Run:     runKindTable,
@@ -322,8 +322,8 @@ func runKindTable(rc *RuleCtx) {
 
 func init() {
 	register(&Rule{
-		Name: "SIGNCONV",
-		Doc: "in the protobuf->JSON converter, the value of an unsigned kind (UINT32, UINT64, FIX32, FIX64) reaches the text encoder as an unsigned quantity: walking back from the integer argument of the text encoder (json.Encode*/strconv.Append*/Format*) through its conversions, the value must be unsigned at its last width change (or at the encoder when the width never changes) — otherwise values >= 2^31 / 2^63 print as negative numbers",
+		Name:    "SIGNCONV",
+		Doc:     "in the protobuf->JSON converter, the value of an unsigned kind (UINT32, UINT64, FIX32, FIX64) reaches the text encoder as an unsigned quantity: walking back from the integer argument of the text encoder (json.Encode*/strconv.Append*/Format*) through its conversions, the value must be unsigned at its last width change (or at the encoder when the width never changes) — otherwise values >= 2^31 / 2^63 print as negative numbers",
 		Configs: "NP",
 		Floor:   map[string]int{"N": 4, "P": 4},
 		Run:     runSignConv,
